@@ -418,6 +418,10 @@ class MarkdownNormalizer(Renderer):
                 # within a quote block it would be the secondary prefix, like `> `.
                 result += self._second_prefix.rstrip() + "\n"
 
+        # Nothing of this item has been rendered yet, so a list that is its first block
+        # must not start with a separator line.
+        self._suppress_item_break = True
+
         if all(isinstance(child, block.BlankLine) for child in element.children):
             # An empty list item still needs its marker, otherwise the item would vanish.
             result += self._prefix.rstrip() + "\n"
